@@ -198,7 +198,8 @@ func (s *Submit) GetCommand() sms.ICommander {
 
 func (s *Submit) GenEmptyResponse() sms.PDU {
 	return &SubmitResp{
-		Header: sgip.NewHeader(sgip.MaxHeaderRespLength, sgip.SGIP_SUBMIT_REP, s.GetSequenceID(), s.GetSequenceID()),
+		// SGIP 1.2 §3.4: a response repeats the whole sequence number of its command
+		Header: sgip.Header{CommandID: sgip.SGIP_SUBMIT_REP, Sequence: s.Header.Sequence},
 	}
 }
 
